@@ -95,9 +95,27 @@ package control
 //@   ensures hasPacked(c) && dl(c) <= now.UnixNano() && (staleTtl == 0 || now.UnixNano() <= dl(c) + staleTtl * 1000000000) ==> result != nil
 //@   ensures dl(c) == old(dl(c))
 
+// (the packing itself is miekg/dns: what callers rely on is assumed; what the body does to the records before
+// packing is checked - every record of all three sections, answer, authority and additional, is copied and the
+// copy's TTL set to the remaining lifetime)
 //@ func (*DnsCache).prepackResponseWithTTL
-//@   trusted
+//@   anchorsonly
+//@   nonilcheck
+//@   dyncalls noeffect
+//@   trustframe
 //@   modifies c.packedResponse, c.packedResponseTTL, c.packedResponseCreatedAt
+//@   at call dns.Copy#1 assert a0 == c.Answer[$idx]
+//@   at call dns.Copy#2 assert a0 == c.NS[$idx]
+//@   at call dns.Copy#3 assert a0 == c.Extra[$idx]
+//@   loop 1
+//@     back copiedRR.Header().Ttl == ttl
+//@     exit $idx == len(c.Answer)
+//@   loop 2
+//@     back copiedRR.Header().Ttl == ttl
+//@     exit $idx == len(c.NS)
+//@   loop 3
+//@     back copiedRR.Header().Ttl == ttl
+//@     exit $idx == len(c.Extra)
 //@   ensures err == nil ==> hasPacked(c) && c.packedResponseTTL.Load() == ttl && c.packedResponseCreatedAt.Load() == now.UnixNano()
 //@   ensures err != nil ==> c.packedResponse.Load() == old(c.packedResponse.Load()) && c.packedResponseTTL.Load() == old(c.packedResponseTTL.Load()) && c.packedResponseCreatedAt.Load() == old(c.packedResponseCreatedAt.Load())
 //@   assumed-ensures err == nil ==> packTTL(packedOf(c)) == ttl
@@ -774,6 +792,9 @@ package control
 //@   at call AddSet#1 assert a0 == domainMatcher && a1 == domains.RuleIndex && a3 == domains.Key && a2.$base == domains.Domains.$base && len(a2) == len(domains.Domains)
 //@   at call Build#1 assert a0 == domainMatcher
 //@   ensures err == nil ==> calls("AhocorasickSlimtrie).Build") == 1
+// releasing the builder's temporary data drops references only: the prefix lists are shared with the kernel
+// snapshot taken earlier (same backing array) and must not be cleared in place
+//@   ensures nocalls("builtin:clear")
 
 // C07 (one forwarder per upstream and dial decision): the cache key of a DNS forwarder carries the upstream's
 // full identity (scheme://host:port/path - two upstreams on the same host must not share a forwarder) and
@@ -905,6 +926,12 @@ package control
 //@   at call dnsCacheBaseKey#1 assert a0 == k
 //@   at call rememberDnsKnowledge#1 assert a0 == c && a2 == v.OriginalDeadline
 //@   at call triggerBpfUpdateIfNeeded#1 assert a1 == v && a2 == now
+// ... and every restored entry - expired ones included, they are still served stale - is stored, remembered
+// and replayed into the kernel table: one call of each per counted entry
+//@   ghostfn replayed(v *DnsCache) bool
+//@   at call triggerBpfUpdateIfNeeded#1 assume-after replayed(v)
+//@   loop 1
+//@     back v == nil || replayed(v)
 
 // C01/C02 (which lowering serves which condition): every routing function name is registered with the
 // parser of its value kind wrapped around the lowering of THAT condition (destination vs source address,
@@ -998,3 +1025,42 @@ package control
 //@   dyncalls noeffect
 //@   modifies t.owners, t.ips
 //@   ensures t != nil ==> t.owners != nil && t.ips != nil && len(t.owners) == 0 && len(t.ips) == 0
+
+// C18 (genuineness follows the record's own lifetime): whatever fixed_domain_ttl says about how long the
+// ANSWER is cached, the original deadline handed on (the one DNS knowledge is remembered until) is
+// now + the record's TTL.
+//@ func (*DnsController).UpdateDnsCacheTtlWithKey$1
+//@   anchorsonly
+//@   nonilcheck
+//@   dyncalls noeffect
+//@   modifies *
+//@   ghostfn od() time.Time
+//@   at call Time).Add#1 assert a0 == now
+//@   at call Time).Add#1 assume-after result == od()
+//@   at return 1 assert result1 == od() && calls("Time).Add") == 2
+//@   at return 2 assert result0 == od() && result1 == od() && calls("Time).Add") == 1
+
+// C18 (which names count as genuine): a probed name enters the real-domain set only when the probe resolved
+// at least one address for it - whatever the per-family errors were.
+//@ func (*ControlPlane).probeAndUpdateRealDomain
+//@   anchorsonly
+//@   nonilcheck
+//@   dyncalls noeffect
+//@   modifies *
+//@   at call resolveIp46WithBootstrapResolvers#1 assert a2 == domain
+//@   at call AddString#1 assert a1 == domain && (ip46.Ip4.IsValid() || ip46.Ip6.IsValid())
+//@   at return 5 before-defers assert calls("AddString") == 1
+//@   at return 4 before-defers assert calls("AddString") == 0
+
+// C08 (time-based eviction follows the serving deadline): the janitor evicts an entry only once the deadline
+// it is SERVED by (the fixed-TTL deadline, plus the stale window under optimistic caching) has passed, and
+// only the entry it looked at.
+//@ func (*DnsController).evictExpiredDnsCache$1
+//@   anchorsonly
+//@   nonilcheck
+//@   dyncalls noeffect
+//@   modifies *
+//@   ghostfn eff() time.Time
+//@   at call Time).Add#1 assert a0 == cache.Deadline && optimisticCacheEnabled && optimisticCacheTtl > 0
+//@   at call Time).After#1 assert a1 == now && (calls("Time).Add") == 0 ==> a0 == cache.Deadline)
+//@   at call evictDnsRespCacheIfSame#1 assert a1 == cacheKey && a2 == cache
